@@ -9,7 +9,7 @@ git -C /repo worktree add --detach -q "$W" HEAD || exit 2
 trap 'git -C /repo worktree remove --force "$W" >/dev/null 2>&1; rm -rf "$W" "$W.out"' EXIT
 if ! git -C "$W" apply "$PATCH"; then echo "PATCH DOES NOT APPLY"; exit 2; fi
 if [ -z "${SKIPTESTS:-}" ]; then
-  (cd "$W" && PYTHONPATH="$W" /venv/bin/python -m pytest -q -p no:cacheprovider -x --deselect tests/test_ctparse.py::test_ctparse -q 2>&1 | tail -3)
+  (cd "$W" && PYTHONPATH="$W" /venv/bin/python -m pytest -q -p no:cacheprovider -n 8 2>&1 | tail -2)
 fi
 mkdir -p "$W.out"
 for pid in "$@"; do
